@@ -51,3 +51,9 @@ CASES += [
         (R + "redfieldtensor.py", "            tm = ta.data[0:tcut]", "            tm = ta.data[:tcut]", 1),
         (R + "tdredfieldtensor.py", "            tm = ta.data[0:tcut]", "            tm = ta.data[:tcut]", 1)]},
 ]
+
+CASES += [
+    m("tensor-form routine restarts the expansion only once per stored step", "C07-E", P,
+      "                        rho2 = rho2 + rho1\n                    rho1 = rho2    \n                    \n                pr.data[indx,:,:] = rho2 \n                indx += 1   \n\n        self._CLOSE_RWA(pr)    ",
+      "                        rho2 = rho2 + rho1\n                rho1 = rho2    \n                    \n                pr.data[indx,:,:] = rho2 \n                indx += 1   \n\n        self._CLOSE_RWA(pr)    "),
+]
